@@ -66,6 +66,10 @@ func init() {
 	addRules("C07", "R-LOGGED", "R-LOGPURE")
 	addRules("C12", "R-LOGGED")
 	addRules("C10", "R-RECOVER-ORDER")
+	addRules("C09", "R-ENTRY-PRESENT")
+	addRules("C19", "R-ENTRY-PRESENT")
+	addRules("C08", "R-ENTRY-PRESENT")
+	reg("R-ENTRY-PRESENT", "Every Record built in the cone of Open carries a non-nil entry unless ds == DataStructureBPTree is established on the path that supplies the nil: list, set and sorted-set records are replayed from their payload in every index mode.", ruleEntryPresent)
 	addRules("C08", "R-RECOVER-ORDER")
 	addRules("C01", "R-RECOVER-ORDER")
 	reg("R-RECOVER-ORDER", "In the cone of Open no membership test on the committed-transaction-id set (comma-ok lookup keyed by a record's txID) is followed on any path, including the next iteration of an enclosing loop and through calls, by an insertion into that set: records are judged only after every segment was scanned, because a transaction's commit marker can lie in a later segment than its first records.", ruleRecoverOrder)
